@@ -382,6 +382,20 @@ func (op *ShellOperator) conversionEventHandler(crdName string, request *v1.Conv
 				return nil, fmt.Errorf("hook task prop error")
 			}
 
+			// The hook has reported a failure: answer with its message, do not run next steps.
+			if response.FailedMessage != "" {
+				return &conversion.Response{
+					FailedMessage: response.FailedMessage,
+				}, nil
+			}
+
+			// Every step should return all objects: a short list must not become a "Success".
+			if len(response.ConvertedObjects) != len(request.Objects) {
+				return &conversion.Response{
+					FailedMessage: fmt.Sprintf("Hook returned %d objects instead of %d while converting to %s", len(response.ConvertedObjects), len(request.Objects), convRule.ToVersion),
+				}, nil
+			}
+
 			// Set response objects as new objects for a next round.
 			request.Objects = response.ConvertedObjects
 
